@@ -122,6 +122,9 @@ func c06Value(r *vhRng) []byte {
 }
 
 func c06Gen(r *vhRng) string {
+	if r.Chance(1, 4) {
+		return c06NibGen(r)
+	}
 	var p *c06Pool
 	if r.Chance(1, 2) {
 		p = c06ShortPool(r)
